@@ -32,8 +32,9 @@ CHECKS = {
     'C07': dict(engine='vt.bfs', cat='model_checking', technique=BFS,
                 text="BFS over share-operation histories on a real directory tree; in every state every query of the term alphabet is compared with a reference matcher and reference index",
                 note="trusted: reference matcher written from SOULSEEK.rst query rules; tree <=14 files quick"),
-    'C08': dict(engine='vt.bfs+vt.sched', cat='model_checking', technique=BFS,
-                text="all share-mode/friend/block/phrase configurations x request kinds, and change histories applied in every upload state followed by the management cycles; frames received by scripted peers are the observation",
+    'C08': dict(engine='vt.sched', cat='model_checking',
+                technique="exhaustive enumeration of configurations, change histories up to a depth bound and placements of a second change at every iteration boundary, executed on the real client under a controlled asyncio loop (implementation-level model checking)",
+                text="all share-mode/friend/block/phrase/nested-directory configurations x asking user x request kinds x path variants, all change histories (<=2 quick, <=3 thorough) applied in every upload state followed by the management cycles, and a second change placed at every boundary of the cycle processing the first; frames received by scripted peers and the upload states are the observation",
                 note="trusted: scripted peers; 3 users"),
     'C09': dict(engine='vt.enum+vt.sched', cat='model_checking', technique=ENUM + " + schedule enumeration of concurrent download start-ups",
                 text="all remote paths over the component alphabet x all strategy chains x directory contents; all interleavings of 2-3 equally named downloads with lazily delivered executor jobs",
@@ -57,7 +58,7 @@ CHECKS = {
                 text="all track/untrack call sequences x server answer menus, each call placed at every boundary within the deviation bound; AddUser/RemoveUser frames at the scripted server compared with the fold of the reason sets",
                 note="trusted: scripted server; 2 users"),
     'C16': dict(engine='vt.sched', cat='model_checking', technique=SCHED,
-                text="settings combinations x login outcomes, server loss with each close reason and stop() injected at every boundary; frames at the scripted server, session events, sockets and tasks checked",
+                text="settings combinations (pairwise-complete quick, full product thorough) x login outcomes; server EOF / reset / requested disconnect / stop() injected at every iteration boundary of login and the post-login burst, while idle, after an earlier loss and with background work pending, reconnect on/off, server unreachable for a while; frames at the scripted server, session events, sockets and tasks checked",
                 note="trusted: scripted server; full SoulSeekClient in the controlled loop"),
     'C17': dict(engine='vt.bfs', cat='model_checking', technique=BFS,
                 text="all single/pair/triple transfer records over state x direction x field alphabet and write/mutate/remove/read histories through the real shelve cache and load_data",
